@@ -272,7 +272,7 @@ def corpus(tier, seed):
     edge += [b"MZ" + b"\x00" * k for k in range(0x38, 0x48)] + [b"xx MZ" + b"A" * k for k in range(0x38, 0x48)]
     edge += [b"xx" + mkpe(0x200, 0x200, 0x400), b"xx" + mkpe(0x200, 0x10000, 0x400), mkpe(0x200, 0x300, 0x400) + b"tail", mkpe(0x3F0, 0x20, 0x400)]
     edge += [b"FromBase64String('QUJD'); FromBase64String('QUJDREVGR0hJSktM') -bxor 77", b"FromHexString('41424344454647484950'); FromHexString('4142434445464748495051525354555657585960') -bxor 9",
-             b"http://0x7f.1", b"http://0x7f.1/", b"see http://0177.1 x", b"      StrReverse(\"abc\") StrReverse('x')", b"aaaaaaaaaaaaaaaaaaaaaaaa reverse('abc')"]
+             b"http://0x7f.1", b"http://0x7f.1/", b"see http://[::1%2e]/x now", b"http://[::%31]/x", b"http://[%31::1]/x", b"http://@example.com/x", b"http://u:@example.com/x", b"see http://0177.1 x", b"      StrReverse(\"abc\") StrReverse('x')", b"aaaaaaaaaaaaaaaaaaaaaaaa reverse('abc')"]
     edge += [b'x = "ab" & "cd"', b"chr(65)", b"y=atob('QUJDRA==')", b'"a".replace("a","b")']
     out += [("edge", e) for e in edge]
     for _ in range(200 if tier == "quick" else 5000):
